@@ -378,7 +378,77 @@ def h5_inline_long(timeout=300, part=None, **kw):
 
 
 # ------------------------------------------------------------------------------------------------ replay
+# ------------------------------------------------------------------------------------------------ H6 several images exported into one directory
+NAME_SET = ["Im0", "Im0.0", "x/Im0", "Im1"]
+NAME_KINDS = ["bmp", "jpg"]
+
+
+def _check_names(seq):
+    """seq: [(name index, kind index)]; the images are exported one after the other by one ImageWriter into an empty directory (the real file system): as many files as images,
+    every returned name distinct, and each file holds its own image's samples"""
+    import os, shutil, tempfile
+    import pdfminer.image as im
+    from pdfminer.psparser import LIT
+    d = tempfile.mkdtemp(prefix="verif-c18n-")
+    try:
+        wr = im.ImageWriter(os.path.join(d, "out"))
+        names = []
+        for i, (ni, ki) in enumerate(seq):
+            v = 10 + 40 * i
+            if NAME_KINDS[ki] == "bmp":
+                img = _mkimage(NAME_SET[ni], {"Width": 1, "Height": 1, "BitsPerComponent": 8, "ColorSpace": LIT("DeviceGray")}, bytes([v]))
+            else:
+                img = _mkimage(NAME_SET[ni], {"Width": 1, "Height": 1, "BitsPerComponent": 8, "ColorSpace": LIT("DeviceGray")}, b"\xff\xd8jpeg-%d\xff\xd9" % v, [(LIT("DCTDecode"), None)])
+            names.append(wr.export_image(img))
+        desc = "images named %r exported as %r into one directory" % ([NAME_SET[n] for n, _ in seq], [NAME_KINDS[k] for _, k in seq])
+        if len(set(names)) != len(names):
+            return "%s: the file names %r are not distinct" % (desc, names)
+        found = sorted(os.path.relpath(os.path.join(r, f), os.path.join(d, "out")) for r, _, fs in os.walk(d) for f in fs)
+        if len(found) != len(seq):
+            return "%s: %d files exist for %d images: %r" % (desc, len(found), len(seq), found)
+        for i, ((ni, ki), name) in enumerate(zip(seq, names)):
+            v = 10 + 40 * i
+            path = os.path.join(d, "out", name)
+            if not os.path.isfile(path):
+                return "%s: image %d was reported as %r, which does not exist" % (desc, i, name)
+            data = open(path, "rb").read()
+            if NAME_KINDS[ki] == "jpg":
+                if data != b"\xff\xd8jpeg-%d\xff\xd9" % v:
+                    return "%s: file %r of image %d does not hold its JPEG data byte for byte" % (desc, name, i)
+            else:
+                try:
+                    W, H, B, rows, pal = read_bmp(list(data))
+                except ValueError as e:
+                    return "%s: file %r of image %d is not a valid BMP: %s" % (desc, name, i, e)
+                if (W, H) != (1, 1) or pal[rows[0][0][1]] != (v, v, v):
+                    return "%s: file %r of image %d reads as %r, the stored sample is %d" % (desc, name, i, pal[rows[0][0][1]], v)
+        return None
+    finally:
+        shutil.rmtree(d, ignore_errors=True)
+
+
+def h6_names(nmax=3, timeout=200, part=None, **kw):
+    import pdfminer.image as im
+
+    def fn(ex):
+        n = 1 + ex.choice(nmax, "n")
+        seq = [(ex.choice(len(NAME_SET), "name%d" % i), ex.choice(len(NAME_KINDS), "kind%d" % i)) for i in range(n)]
+        try:
+            r = _check_names(seq)
+        except Exception as e:
+            ex.require(False, "export_image raised %s: %s" % (type(e).__name__, e), seq=seq)
+        ex.require(r is None, r or "", seq=seq)
+
+    def conc(m, info):
+        return info
+    return core.run_symx("H6_names", fn, [im.ImageWriter.export_image, im.ImageWriter._create_unique_image_name, im.ImageWriter._save_bmp, im.ImageWriter._save_jpeg],
+                         {"sequence": "every sequence of 1..%d images with names from %r, each a 1x1 gray BMP or a DCT image" % (nmax, NAME_SET), "file system": "real, a fresh temporary directory per sequence"},
+                         timeout, concretize=conc, part=part)
+
+
 def replay(harness, inp):
+    if harness == "H6_names":
+        return _check_names([tuple(x) for x in inp["seq"]])
     import pdfminer.image as im
     from pdfminer.psparser import LIT
     if harness == "H1_bmp":
@@ -473,7 +543,7 @@ GEOMS_Q = [(1, 1, 24), (2, 2, 24), (3, 1, 24), (1, 1, 8), (3, 2, 8), (5, 1, 8), 
 
 
 def jobs(tier):
-    J = [Job("H2_format", "h2_format", {}, 100)] + [Job("H5_inline_long:%d" % k, "h5_inline_long", {"part": [k, 4, 5]}, 300, "H4_inline") for k in range(4)]
+    J = [Job("H2_format", "h2_format", {}, 100)] + [Job("H6_names:%d" % k, "h6_names", {"nmax": 3 if tier == "quick" else 4, "part": [k, 4, 4]}, 300, "H6_names") for k in range(4)] + [Job("H5_inline_long:%d" % k, "h5_inline_long", {"part": [k, 4, 5]}, 300, "H4_inline") for k in range(4)]
     geoms = [(w, h, b) for b in (24, 8, 1) for w in (1, 2, 3, 4, 5, 7, 8, 9) for h in (1, 2, 3)]
     if tier == "thorough":
         geoms += [(w, h, b) for b in (24, 8, 1) for w in (15, 16, 17, 33) for h in (1, 4)]
